@@ -153,13 +153,13 @@ Qed.
 Lemma v_length : length s = n.
 Proof. apply v_parts. Qed.
 
-Lemma v_factor f : f < n -> length (nth f s []) = T /\
+Lemma v_factor f : In f (fl_act fb) -> length (nth f s []) = T /\
   forall t, t < T -> exists l, get_cell s f t = Some l /\ l < nlevels fb f.
 Proof.
-  intros Hf. destruct v_parts as (_ & Hfac & _ & _).
+  intros Hact. pose proof (act_lt fb HF f Hact) as Hf. destruct v_parts as (_ & Hfac & _ & _).
   assert (Hlt : f < length (s_factors S0)) by (rewrite (f0_sem_factors_length fb HF); exact Hf).
   destruct (nth_error (s_factors S0) f) as [fd|] eqn:E; [|apply nth_error_None in E; lia].
-  specialize (Hfac f fd E). destruct (f0_sem_factor fb HF f fd E) as (_ & Hnl & Hsu & Hder).
+  specialize (Hfac f fd E). destruct (f0_sem_factor fb HF f fd Hact E) as (_ & Hnl & Hsu & Hder).
   unfold factor_ok in Hfac. apply andb_prop in Hfac. destruct Hfac as [Hl Hcells].
   apply Nat.eqb_eq in Hl. split; [exact Hl|]. intros t Ht. rewrite forallb_forall in Hcells.
   specialize (Hcells t ltac:(apply in_seq; rewrite (f0_sem_trials fb HF); lia)).
@@ -172,7 +172,7 @@ Qed.
 
 Definition lvl (f t : nat) : nat := match get_cell s f t with Some l => l | None => 0 end.
 
-Lemma lvl_cell f t : f < n -> t < T -> get_cell s f t = Some (lvl f t) /\ lvl f t < nlevels fb f.
+Lemma lvl_cell f t : In f (fl_act fb) -> t < T -> get_cell s f t = Some (lvl f t) /\ lvl f t < nlevels fb f.
 Proof.
   intros Hf Ht. destruct (v_factor f Hf) as [_ H]. destruct (H t Ht) as [l [E Hl]]. unfold lvl. rewrite E. auto.
 Qed.
@@ -191,7 +191,7 @@ Qed.
 Lemma cs_combo t : t < s_trials S0 -> combo_at s (c_factors (f0_crossing fb)) t = map Some (nth t cs []).
 Proof.
   rewrite (f0_sem_trials fb HF). intros Ht. rewrite cs_nth by exact Ht. unfold combo_at. cbn [f0_crossing c_factors].
-  rewrite map_map. apply map_ext_in. intros f Hf. apply lvl_cell; [apply (f0_range fb (f0_unpack fb HF)); exact Hf | exact Ht].
+  rewrite map_map. apply map_ext_in. intros f Hf. apply lvl_cell; [apply (f0_cact_main fb HF); exact Hf | exact Ht].
 Qed.
 
 Lemma Forall2_map_same {A B C} (P : B -> C -> Prop) (f : A -> B) (g : A -> C) (l : list A) :
@@ -210,7 +210,7 @@ Proof.
   rewrite (f0_sem_constraints fb HF). apply in_flat_map. exists (FExclude f l). split; [exact Hin | left; reflexivity].
 Qed.
 
-Lemma lvl_in_L g t : g < n -> t < T -> In (lvl g t) (f0_L fb g).
+Lemma lvl_in_L g t : In g (fl_act fb) -> t < T -> In (lvl g t) (f0_L fb g).
 Proof.
   intros Hg Ht. apply (f0_L_spec fb HF). destruct (lvl_cell g t Hg Ht) as [Hc Hl]. split; [exact Hl|].
   intros Hin. apply (count_level_zero _ _ t (v_exclude g _ Hin)). exact Hc.
@@ -221,11 +221,11 @@ Proof.
   intros Ht. rewrite cs_nth by exact Ht. apply (f0_cprod_spec fb HF). split.
   - apply product_In. apply Forall2_map_same.
     intros f Hf. unfold all_levels. apply in_seq.
-    destruct (lvl_cell f t (f0_range fb (f0_unpack fb HF) f Hf) Ht) as [_ H]. lia.
+    destruct (lvl_cell f t (f0_cact_main fb HF f Hf) Ht) as [_ H]. lia.
   - apply not_true_is_false. intros E. apply (f0_excluded_spec fb HF) in E. destruct E as (f & l & Hk & Hl).
     rewrite alookup_combine_map in Hl. destruct (memb f (the_crossing fb)) eqn:Em; [|discriminate].
     inversion Hl as [Hl']. apply memb_In in Em.
-    assert (Hf : f < n) by (apply (f0_range fb (f0_unpack fb HF)); exact Em).
+    assert (Hf : In f (fl_act fb)) by (apply (f0_cact_main fb HF); exact Em).
     destruct (lvl_cell f t Hf Ht) as [Hc _].
     apply (count_level_zero _ _ t (v_exclude f l Hk)). rewrite <- Hl'. exact Hc.
 Qed.
@@ -295,7 +295,7 @@ Qed.
 Lemma round_comp_spec a tc : a + tc <= T -> tc <= C ->
   (forall j, j < q -> count_in (nth j prod []) (slice a tc) <= mult_of j) ->
   comp_ok fb tc (round_comp a tc) /\
-  forall g, g < n -> round_row fb tc (round_comp a tc) g = map (fun t' => get_cell s g (a + t')) (seq 0 tc).
+  forall g, In g (fl_act fb) -> round_row fb tc (round_comp a tc) g = map (fun t' => get_cell s g (a + t')) (seq 0 tc).
 Proof.
   intros Hb Hle Hcnt. destruct (slice_perm_spec a tc Hb Hcnt) as (Hbw & Hpn).
   destruct (p_R_spec cws (f0_cws_nonneg fb HF) tc (slice_perm a tc) ltac:(rewrite (f0_p_C fb HF); exact Hle) Hbw) as [Hrange Hcomp].
@@ -305,7 +305,7 @@ Proof.
   assert (Hz : forall g, In g ubi ->
             (0 <= comb_rank (Z.of_nat (length (f0_L fb g))) (zlevels g a tc) < Z.of_nat (length (f0_L fb g)) ^ Z.of_nat tc)%Z /\
             combo_of tc (length (f0_L fb g)) (comb_rank (Z.of_nat (length (f0_L fb g))) (zlevels g a tc)) = zlevels g a tc).
-  { intros g Hg. assert (Hgn : g < n) by (apply (ubi_In fb HF Hq) in Hg; apply Hg).
+  { intros g Hg. assert (Hgn : In g (fl_act fb)) by (apply (ubi_In fb HF Hq) in Hg; apply Hg).
     pose proof (f0_nonempty fb (f0_unpack fb HF) g Hgn) as Hnl.
     destruct (RadixProofs.comb_bij tc (Z.of_nat (length (f0_L fb g))) ltac:(lia)) as [_ Hb2].
     assert (Hlen : length (zlevels g a tc) = tc) by (unfold zlevels; rewrite map_length, seq_length; reflexivity).
@@ -325,7 +325,7 @@ Proof.
     set (L := fun f => lvl f (a + t')).
     rewrite (nth_indep (map L c) 0 (L 0)) by (rewrite map_length; exact Hil).
     rewrite (map_nth L). rewrite (nth_error_nth _ _ 0 Hi). unfold L.
-    symmetry. apply lvl_cell; [apply (f0_range fb (f0_unpack fb HF)); eapply nth_error_In; exact Hi | lia].
+    symmetry. apply lvl_cell; [apply (f0_cact_main fb HF); eapply nth_error_In; exact Hi | lia].
   - pose proof Hg as Hgu. apply In_nth_error in Hg. destruct Hg as [j Hj].
     rewrite (round_row_ind fb HF Hq tc _ j g Hle Hok Hj). unfold round_comp at 1. cbn [snd].
     assert (Hjl : j < length ubi) by (apply nth_error_Some; congruence).
@@ -341,7 +341,7 @@ Proof.
     { rewrite (nth_indep (map G (seq 0 tc)) 0%Z (G 0)) by (rewrite map_length, seq_length; lia).
       rewrite (map_nth G). rewrite seq_nth by lia. reflexivity. }
     rewrite Hnt. unfold G, lv_of. rewrite Nat2Z.id.
-    assert (Hgn : g < n) by (apply (ubi_In fb HF Hq) in Hgu; apply Hgu).
+    assert (Hgn : In g (fl_act fb)) by (apply (ubi_In fb HF Hq) in Hgu; apply Hgu).
     destruct (nindex_spec _ _ (lvl_in_L g (a + t') Hgn ltac:(lia))) as [_ E]. rewrite E.
     symmetry. apply lvl_cell; [exact Hgn | lia].
 Qed.
@@ -397,7 +397,7 @@ Proof.
     apply round_comp_spec; [lia | apply Nat.lt_le_incl, (f0_leftover_lt fb HF) | apply leftover_counts; exact E].
 Qed.
 
-Lemma the_key_rows g : g < n -> decoded_row fb the_key g = nth g s [].
+Lemma the_key_rows g : In g (fl_act fb) -> decoded_row fb the_key g = nth g s [].
 Proof.
   intros Hg. pose proof T_split as HT. destruct (v_factor g Hg) as [Hlen _].
   unfold decoded_row, the_key. cbn [k_rounds k_left].
